@@ -290,13 +290,46 @@ func deref(t types.Type) types.Type {
 	return t
 }
 
-func fieldName(t types.Type, i int) string {
+func fieldName(t types.Type, i int) string { return FieldName(t, i) }
+
+// FieldName is the name of field i of (a pointer to) a struct type as the rules know it: for named struct types of
+// the repository the field names are canonical (see canonMap), so that renaming an unexported field — or reordering
+// fields — changes no descriptor.
+func FieldName(t types.Type, i int) string {
 	t = deref(t)
-	if st, ok := t.Underlying().(*types.Struct); ok && i < st.NumFields() {
-		return st.Field(i).Name()
+	st, ok := t.Underlying().(*types.Struct)
+	if !ok || i >= st.NumFields() {
+		return fmt.Sprintf("f%d", i)
 	}
-	return fmt.Sprintf("f%d", i)
+	if n, ok := t.(*types.Named); ok && n.Obj().Pkg() != nil {
+		if rel := relPkg(n.Obj().Pkg()); rel != "" {
+			key := "type:" + rel + "." + n.Obj().Name()
+			if cn, ok := Canon[key]; ok {
+				m := canonFieldMaps[key]
+				if m == nil {
+					cur := make([]string, st.NumFields())
+					for k := range cur {
+						cur[k] = st.Field(k).Name()
+					}
+					m = canonMap(cur, cn.Params)
+					if m == nil {
+						m = cur
+					}
+					if canonFieldMaps == nil {
+						canonFieldMaps = map[string][]string{}
+					}
+					canonFieldMaps[key] = m
+				}
+				if i < len(m) {
+					return m[i]
+				}
+			}
+		}
+	}
+	return st.Field(i).Name()
 }
+
+var canonFieldMaps map[string][]string
 
 func globalName(g *ssa.Global) string {
 	rel := ""
